@@ -156,7 +156,7 @@ def generate(rng, tier):
     fault_free = rng.random() < 0.3
     fault_rate = 0.0 if fault_free else rng.choice([0.05, 0.15, 0.3])
     kinds = [x for x in hw.FAULT_KINDS if rng.random() < 0.6]
-    n_ops = rng.randint(8, 40 if tier != "quick" else 30)
+    n_ops = rng.randint(8, 70 if tier != "quick" else 30)
     bias_old = 0
     while len(ops) < n_ops:
         r = rng.random()
@@ -165,7 +165,7 @@ def generate(rng, tier):
         if bias_old > 0:
             r = 1.0
             bias_old -= 1
-        if r < 0.30 and len(nodes) < 12:
+        if r < 0.30 and len(nodes) < (12 if tier == "quick" else 20):
             # prefer recent connections as parents: deeper chains
             p = conns[-1 - min(len(conns) - 1, int(rng.expovariate(0.7)))] if rng.random() < 0.6 else rng.choice(conns)
             pn = nodes[p]
